@@ -39,6 +39,10 @@ ALPH = {"BaseEncoding": "ACGTNacgtn,;|xyz01\x00\x7f",      # incl. NUL and DEL: 
          "ACGTEncoding": "ACGT", "ACGTnEncoding": "ACGTN", "AminoAcidEncoding": "ACDEFGHIKLMNPQRSTVWY*"}
 
 
+OTHER_ENC = {"ACGTEncoding": "ACTGEncoding", "ACGTnEncoding": "ACTGnEncoding", "BaseEncoding": "ACTGEncoding"}
+ALPH_OTHER = {"ACTGEncoding": "ACTG", "ACTGnEncoding": "ACTGN"}
+
+
 def _enc(name):
     import bionumpy as bnp
     from bionumpy.encodings import alphabet_encoding as ae
@@ -54,6 +58,10 @@ def _dec_table(name):
 
 # ------------------------------------------------------------------ oracle: Python lists of strings
 class Bad(Exception):
+    pass
+
+
+class Refused(Exception):
     pass
 
 
@@ -298,7 +306,7 @@ def cases(tier, rng):
                 break
         kind = rng.choice(["program", "program", "eqchar", "copy_indep"])
         case = {"op": kind, "enc": enc, "v": _val_json(val), "ops": ops, "npint": rng.random() < 0.4, "from_str": rng.random() < 0.5,
-                "vform": rng.choice(["str", "str", "base", "enc"])}
+                "vform": rng.choice(["str", "str", "base", "enc", "enc_other"])}
         if kind == "copy_indep":
             # after the program: c = r.copy(); assign into c; the original r must be unchanged (and vice versa)
             try:
@@ -508,6 +516,13 @@ def impl(c):
     vform = c.get("vform", "str")
 
     def value(codes_):
+        if vform == "enc_other":
+            # the same TEXT, already encoded with ANOTHER alphabet (other code order): assigning it must give that text or raise
+            text, other = _text_of(codes_, enc), OTHER_ENC.get(enc)
+            if other and text and all(ch in ALPH_OTHER[other] for ch in text):
+                from bionumpy.encodings import alphabet_encoding as ae
+                return bnp.as_encoded_array(text, getattr(ae, other))
+            return text
         if vform == "enc":
             return _build(enc, {"t": "flat", "l": codes_})
         if vform == "base":
@@ -528,14 +543,19 @@ def impl(c):
             return v.ravel()
         if k == "copy":
             return v.copy()
-        if k == "setRow":
-            v[o["i"]] = value(o["v"])
-            return v
-        if k == "setRowSlice":
-            v[o["i"], slice(o["a"], o["b"])] = value(o["v"])
-            return v
-        if k == "setFlat":
-            v[_np_idx(o["ix"])] = value(o["v"])
+        if k in ("setRow", "setRowSlice", "setFlat"):
+            val = value(o["v"])
+            try:
+                if k == "setRow":
+                    v[o["i"]] = val
+                elif k == "setRowSlice":
+                    v[o["i"], slice(o["a"], o["b"])] = val
+                else:
+                    v[_np_idx(o["ix"])] = val
+            except Exception:
+                if vform == "enc_other" and not isinstance(val, str):
+                    raise Refused()      # data in another alphabet may be refused (C06); it must never be stored as other letters
+                raise
             return v
         if k == "append":
             return np.append(v, _build(enc, {"t": "flat", "l": o["v"]}))
@@ -617,6 +637,8 @@ def impl(c):
                 if not (w.encoding == _enc(enc)):
                     return {"err": "encoding-changed"}
                 return {"obs": w.to_string()}
+        except Refused:
+            return {"refused": True}
         except Exception as e:
             return {"err": "index", "exc": type(e).__name__}
     if op == "copy_indep":
@@ -633,12 +655,17 @@ def impl(c):
             if "err" in a or "err" in b:
                 return {"err": "index"}
             return {"orig": a["text"], "copy": b["text"]}
+        except Refused:
+            return {"refused": True}
         except Exception as e:
             return {"err": "index", "exc": type(e).__name__}
     try:
         v = _build(enc, c["v"])
-        for o in c["ops"]:
-            v = step(v, o)
+        try:
+            for o in c["ops"]:
+                v = step(v, o)
+        except Refused:
+            return {"refused": True}
         if op == "eqchar":
             ch = chr(_dec_table(enc)[c["c"]])
             r = (v == ch)
@@ -765,6 +792,8 @@ def _strip(x):
 
 
 def agree(c, got, exp):
+    if isinstance(got, dict) and got.get("refused") and c.get("vform") == "enc_other":
+        return True
     return core.canon(_strip(got)) == core.canon(exp)
 
 
@@ -780,6 +809,8 @@ def _val_of_json(j):
 
 
 def agree_model(c, got, m):
+    if isinstance(got, dict) and got.get("refused") and c.get("vform") == "enc_other":
+        return True
     m = _obs_from_lean(m)
     if c["op"] in ("observe", "sa") and isinstance(m, dict) and "text" in m:
         try:
